@@ -325,6 +325,17 @@ def engine_b(c, rng):
                     alive = srv.workers_alive()
                     if not m or int(m.group(1)) != threads or len(alive) != threads:
                         bad = "Spawned %s, census %s, expected %d" % (m.group(1) if m else None, alive, threads)
+                    else:
+                        # ... and every one of them serves: enough sequential requests for each worker to get a turn
+                        unanswered = 0
+                        nreq = 2 * threads + 40
+                        for _ in range(nreq):
+                            data, end = srv.request(("GET %s HTTP/1.1\r\nHost: x\r\n\r\n" % f).encode(), timeout=10)
+                            if not data.startswith(b"HTTP/1.1 200"):
+                                unanswered += 1
+                        c.count("requests_sent_to_pools_of_configured_size", nreq)
+                        if unanswered:
+                            bad = "%d of %d sequential requests to a %d-worker server were not answered with 200" % (unanswered, nreq, threads)
                 else:
                     def observe_runtime():
                         bad = None
